@@ -82,6 +82,7 @@ type SpecFunc struct {
 	Body   Expr // nil => uninterpreted
 	Src    string
 	Pkg    string
+	Macro  bool // expanded at each use (may read the heap of the state it is used in)
 }
 
 type Axiom struct {
@@ -191,10 +192,15 @@ func (cs *ContractSet) parseContractText(text, file, pkgPath string) error {
 			}
 			cs.Ghosts[f[0]] = &GhostDecl{Name: f[0], Type: resolveTypeAliases(strings.TrimSpace(f[1]), pkgPath, imports), Src: src, Pkg: pkgPath}
 			cur = nil
-		case strings.HasPrefix(s, "spec func "):
-			sf, err := parseSpecFunc(strings.TrimPrefix(s, "spec func "), pkgPath, imports)
+		case strings.HasPrefix(s, "spec func ") || strings.HasPrefix(s, "spec macro "):
+			isMacro := strings.HasPrefix(s, "spec macro ")
+			sf, err := parseSpecFunc(strings.TrimPrefix(strings.TrimPrefix(s, "spec func "), "spec macro "), pkgPath, imports)
 			if err != nil {
 				return fail(err)
+			}
+			sf.Macro = isMacro
+			if isMacro && sf.Body == nil {
+				return fail(fmt.Errorf("spec macro needs a body"))
 			}
 			sf.Src = src
 			sf.Pkg = pkgPath
